@@ -89,7 +89,9 @@ func cmdCheck(args []string) int {
 	res := runCheck(root, prop, tier, nil)
 	res.Seed = seed
 	res.Wall = time.Since(start).Seconds()
-	writeEvidence(res)
+	if os.Getenv("GOVC_NO_EVIDENCE") == "" { // the seed runner checks deliberately broken trees: their runs are not evidence
+		writeEvidence(res)
+	}
 	for _, l := range res.Lines {
 		fmt.Println(l)
 	}
